@@ -30,9 +30,38 @@ pub fn v_rule(r: &asp::Rule) -> String {
     if body.is_empty() && r.head != asp::Head::Falsity { format!("{head}.") } else { format!("{head} :- {}.", body.join(" , ")) }
 }
 
+/// integer term with every operand in parentheses (the parser accepts them, the printer drops most)
+fn v_iterm(t: &fol::IntegerTerm) -> String {
+    match t {
+        fol::IntegerTerm::UnaryOperation { arg, .. } => format!("-({})", v_iterm(arg)),
+        fol::IntegerTerm::BinaryOperation { op, lhs, rhs } => format!("({}) {} ({})", v_iterm(lhs), op, v_iterm(rhs)),
+        x => x.to_string(),
+    }
+}
+
+fn v_gterm(t: &fol::GeneralTerm) -> String {
+    match t {
+        fol::GeneralTerm::IntegerTerm(i) => v_iterm(i),
+        x => x.to_string(),
+    }
+}
+
+fn v_atomic(a: &fol::AtomicFormula) -> String {
+    match a {
+        fol::AtomicFormula::Atom(at) if !at.terms.is_empty() =>
+            format!("{}({})", at.predicate_symbol, at.terms.iter().map(v_gterm).collect::<Vec<_>>().join(", ")),
+        fol::AtomicFormula::Comparison(c) => {
+            let mut s = v_gterm(&c.term);
+            for g in &c.guards { s.push_str(&format!(" {} {}", g.relation, v_gterm(&g.term))); }
+            s
+        }
+        x => x.to_string(),
+    }
+}
+
 pub fn v_formula(f: &fol::Formula) -> String {
     match f {
-        fol::Formula::AtomicFormula(a) => a.to_string(),
+        fol::Formula::AtomicFormula(a) => v_atomic(a),
         fol::Formula::UnaryFormula { formula, .. } => format!("not ({})", v_formula(formula)),
         fol::Formula::BinaryFormula { connective, lhs, rhs } => format!("({}) {} ({})", v_formula(lhs), connective, v_formula(rhs)),
         fol::Formula::QuantifiedFormula { quantification, formula } => format!("{} ({})", quantification, v_formula(formula)),
@@ -67,13 +96,46 @@ fn asp_class(p: &asp::Program) -> String {
     if uses_not { "symbol-or-predicate-named-not".into() } else { "unclassified".into() }
 }
 
+/// names that are keywords of the target language (constants may carry them)
+const FOL_KEYWORD_NAMES: &[&str] = &["not", "not", "forall", "exists", "and", "or", "a"];
+
+fn kw_iterm(t: &mut fol::IntegerTerm, r: &mut Rng) {
+    match t {
+        fol::IntegerTerm::FunctionConstant(c) => { if r.chance(1, 2) { *c = r.pick(FOL_KEYWORD_NAMES).to_string(); } }
+        fol::IntegerTerm::UnaryOperation { arg, .. } => kw_iterm(arg, r),
+        fol::IntegerTerm::BinaryOperation { lhs, rhs, .. } => { kw_iterm(lhs, r); kw_iterm(rhs, r); }
+        leaf => { if r.chance(1, 3) { *leaf = fol::IntegerTerm::FunctionConstant(r.pick(FOL_KEYWORD_NAMES).to_string()); } }
+    }
+}
+
+fn kw_gterm(t: &mut fol::GeneralTerm, r: &mut Rng) {
+    match t {
+        fol::GeneralTerm::FunctionConstant(c) => { if r.chance(1, 2) { *c = r.pick(FOL_KEYWORD_NAMES).to_string(); } }
+        fol::GeneralTerm::IntegerTerm(i) => kw_iterm(i, r),
+        fol::GeneralTerm::SymbolicTerm(fol::SymbolicTerm::Symbol(c)) | fol::GeneralTerm::SymbolicTerm(fol::SymbolicTerm::FunctionConstant(c)) => {
+            if r.chance(1, 2) { *c = r.pick(FOL_KEYWORD_NAMES).to_string(); }
+        }
+        _ => {}
+    }
+}
+
 fn fol_rename(f: fol::Formula, rng: &mut Rng) -> fol::Formula {
     use anthem::convenience::apply::Apply as _;
     let mut r = rng.fork();
+    let keywordy = r.chance(1, 4);
     f.apply(&mut |g| match g {
         fol::Formula::AtomicFormula(fol::AtomicFormula::Atom(mut a)) => {
             if r.chance(1, 3) { a.predicate_symbol = r.pick(FOL_PREDS).to_string(); }
+            if keywordy {
+                if r.chance(1, 4) { a.predicate_symbol = r.pick(FOL_KEYWORD_NAMES).to_string(); }
+                for t in a.terms.iter_mut() { kw_gterm(t, &mut r); }
+            }
             fol::Formula::AtomicFormula(fol::AtomicFormula::Atom(a))
+        }
+        fol::Formula::AtomicFormula(fol::AtomicFormula::Comparison(mut c)) if keywordy => {
+            kw_gterm(&mut c.term, &mut r);
+            for gd in c.guards.iter_mut() { kw_gterm(&mut gd.term, &mut r); }
+            fol::Formula::AtomicFormula(fol::AtomicFormula::Comparison(c))
         }
         x => x,
     })
